@@ -726,6 +726,11 @@ def gen_cases(rng, tier):
         c["state"] = st.hex()
         cases.append(c)
     cases += _copy_cases(rng)      # wave 8: systematic block, part of every tier
+    # systematic: process names that imitate a status line after a byte some line splitter treats as a line end (the kernel
+    # escapes only \n and \\ in Name:), so that a reader which does not anchor on the kernel's real lines is spoofed
+    for cm in (b"x\rUid:\t0\t0\t0", b"\rGid:\t0\t0\t0\t0", b"a\rThreads:\t99", b"x\x0bUid:\t0\t0\t0", b"x\x0cThreads:\t7",
+               b"Uid:\t0\t0\t0", b"Threads:\t99", b"x\tUid:\t0\t0\t0", b"x\x1cGid:\t0\t0\t0", b"x\x85Uid:\t0\t0"):
+        cases.append(dict(_status_case(rng, comm=cm, cls="status-spoof"), uid=[1000, 1001, 1002, 1003], gid=[2000, 2001, 2002, 2003], threads=3))
     for _ in range(150 * n):
         cases.append(_stat_case(rng))
     for _ in range(120 * n):
